@@ -268,9 +268,10 @@ def plan(tier, seed):
     # stars: one stem crossing 29..36 others (the level bound passes the number of bracket kinds), each its own shard
     if tier == "quick":
         return [{"kind": "faults", "examples": 40, "seed": seed * 1000 + k} for k in range(14)] + \
-               [{"kind": "stars", "ks": [k]} for k in (29, 30, 31, 33)]
+               [{"kind": "stars", "ks": [k]} for k in (29, 30, 31, 33)] + [{"kind": "stars", "ks": [k], "ladder": True} for k in (11, 12)]
     return [{"kind": "faults", "examples": 600, "seed": seed * 1000 + k} for k in range(16)] + \
-           [{"kind": "stars", "ks": [k], "stem_len": sl} for k in range(28, 37) for sl in (1, 2)]
+           [{"kind": "stars", "ks": [k], "stem_len": sl} for k in range(28, 37) for sl in (1, 2)] + \
+           [{"kind": "stars", "ks": [k], "stem_len": sl, "ladder": True} for k in (10, 11, 12, 13, 15, 21) for sl in (1, 2)]
 
 
 def run_shard(spec) -> ShardResult:
@@ -281,10 +282,12 @@ def run_shard(spec) -> ShardResult:
         from rnaverif.runner import check_case
 
         for k in spec["ks"]:
-            seq, pairs = ssref.star(k, spec.get("stem_len", 1))
+            # ladder: k MUTUALLY crossing stems - the notation needs k levels (two-digit level numbers from k = 11 on)
+            seq, pairs = ssref.ladder(k, spec.get("stem_len", 2), 1) if spec.get("ladder") else ssref.star(k, spec.get("stem_len", 1))
             case = {"seq": seq, "pairs": [list(p) for p in pairs], "script": [["cbc", "ok", "unset", None], ["cbc", "notsolved", "unset", None]]}
             check_case(PROP_ID, oracle, case, res)
-            res.note_case({"star": k, "stem_len": spec.get("stem_len", 1)}, True, [f"one-stem-crossing-{'>=30' if k >= 30 else '<30'}-others"])
+            res.note_case({"ladder" if spec.get("ladder") else "star": k, "stem_len": spec.get("stem_len", 1)}, True,
+                          [f"{k}-mutually-crossing-stems"] if spec.get("ladder") else [f"one-stem-crossing-{'>=30' if k >= 30 else '<30'}-others"])
         res.exhaustive = False
         return res
     # a step: behaviour of the first solver call of a request, how variables are left, and the behaviours that any
